@@ -6,6 +6,8 @@ import (
 	"strings"
 	"unicode/utf8"
 
+	"github.com/hashicorp/go-bexpr/grammar"
+
 	"verif/internal/mon"
 	"verif/internal/refparse"
 	"verif/internal/xgen"
@@ -14,7 +16,7 @@ import (
 // C15 - the parser accepts exactly the language and builds the prescribed tree.
 
 var c15Full = []string{"a", "b.c", "not", "and", "or", "in", "is", "empty", "contains", "matches", "any", "all", "as", "_",
-	"0", "1", "-1", "1.5", "01", `"s"`, "`s`", `"/p"`, `""`, `"\q"`, "\"a\nb\"", "`a\rb`", "\"\ufffd\"", "(", ")", "{", "}", "[", "]", ".", ",", "==", "!="}
+	"0", "1", "-1", "1.5", "01", `"s"`, "`s`", `"/p"`, `""`, `"\q"`, "\"a\nb\"", "`a\rb`", "\"\ufffd\"", "\"/v½\"", "(", ")", "{", "}", "[", "]", ".", ",", "==", "!="}
 var c15Mid = []string{"a", "b.c", "not", "and", "or", "in", "is", "empty", "contains", "any", "as", "_", "1", `"s"`, `"/p"`, "(", ")", "{", "}", "=="}
 var c15Small = []string{"a", "not", "and", "or", "in", "is", "empty", "any", "as", "1", `"s"`, "(", ")", "{", "}", "=="}
 
@@ -135,6 +137,9 @@ func c15Compare(c *mon.Ctx, s string, origin string) {
 		c.Violation("C15 tree-mismatch "+xgen.Diff(tree, ref.Tree), "parser built a different tree than the grammar prescribes", d)
 	}
 	c.Count("trees_compared")
+	if len(s)%5 == 0 {
+		c15BufferIndependence(c, s)
+	}
 	// CreateEvaluator accepts the same strings
 	ev, cerr, pan, _ := createEval(s)
 	if pan != "" || (cerr == nil) != realAccept || (cerr == nil && ev == nil) {
@@ -267,7 +272,52 @@ func c15Mutate(r *rand.Rand, s string) string {
 	return out
 }
 
+// c15Disturb makes calls that carry exported parser options (several of the
+// same kind, an alternate entry point, ...). They must not influence any
+// later call; the comparisons that follow in the same process would show it.
+func c15Disturb(c *mon.Ctx, idx int) {
+	in := []byte(`foo == "a\xffb" and (x.y in z or "bar" == 1)`)
+	calls := [][]grammar.Option{
+		{grammar.Entrypoint("Value")},
+		{grammar.AllowInvalidUTF8(true), grammar.MaxExpressions(5000), grammar.AllowInvalidUTF8(false), grammar.MaxExpressions(0)},
+		{grammar.Entrypoint("Selector"), grammar.Entrypoint("")},
+		{grammar.Recover(false), grammar.Recover(true), grammar.GlobalStore("k", 1)},
+		{grammar.MaxExpressions(3)},
+		{grammar.AllowInvalidUTF8(true)},
+	}
+	opts := calls[(idx/97)%len(calls)]
+	mon.Try(func() { grammar.Parse("", in, opts...) })
+	mon.Try(func() { grammar.ParseReader("", strings.NewReader("a == 1"), opts...) })
+	c.Count("option_bearing_calls_interleaved")
+}
+
+// c15BufferIndependence: the tree must not alias the caller's input buffer.
+func c15BufferIndependence(c *mon.Ctx, s string) {
+	buf := []byte(s)
+	var val interface{}
+	var err error
+	if t := mon.Try(func() { val, err = grammar.Parse("", buf) }); t.Panic || err != nil {
+		return
+	}
+	tree, terr := treeOf(val)
+	if terr != nil {
+		return
+	}
+	before := xgen.Canon(tree)
+	for i := range buf {
+		buf[i] = 'x'
+	}
+	tree2, _ := treeOf(val)
+	if after := xgen.Canon(tree2); after != before {
+		c.Violation("C15 tree-aliases-input-buffer", "the syntax tree changed when the caller overwrote the input buffer after Parse returned", map[string]any{"input": clip(s, 200), "tree_before": clip(before, 300), "tree_after": clip(after, 300)})
+	}
+	c.Count("buffer_independence_checked")
+}
+
 func c15Run(c *mon.Ctx, idx int) {
+	if idx%97 == 0 {
+		c15Disturb(c, idx)
+	}
 	plan := c15GetPlan(c.Tier)
 	if idx < plan.nSeq {
 		for _, seg := range plan.segs {
@@ -316,7 +366,7 @@ func c15Run(c *mon.Ctx, idx int) {
 
 func init() {
 	req := func(tier string) []string {
-		l := []string{"accepted", "rejected", "trees_compared", "token_sequences", "derivations", "mutants"}
+		l := []string{"accepted", "rejected", "option_bearing_calls_interleaved", "buffer_independence_checked", "trees_compared", "token_sequences", "derivations", "mutants"}
 		for _, a := range refparse.AllAlts {
 			l = append(l, "alt:"+a)
 		}
